@@ -226,6 +226,8 @@ def install(lib, np_):
     m = fresh('nuniq', z3.IntSort())
     cx.p.assume(m >= z3.If(n >= 1, 1, 0))
     cx.p.assume(m <= n)
+    if s.term is not None and s.shape.rank == 1:
+      cx.p.assume(m == TH.ndistinct(s.term))
     dims = [m] + (list(s.shape.dims[1:]) if ax == 0 else [])
     u = cx.new(TH.uniqueT(s.term) if s.term is not None else None, dims, s.kind)
     outs = [u]
@@ -610,16 +612,20 @@ def install(lib, np_):
     k, d = cx.p.heap[o.oid]['fitted']
     return cx.new(None, [k, d], 'f')
 
-  @emethod('lda', 'fit', 'ASSUMED: scalings_ has shape (d, m) with m = min(d, n_classes - 1) for the svd solver; ValueError for < 2 classes')
+  @emethod('lda', 'fit', 'ASSUMED: scalings_ has shape (d, m) with m = min(d, n_classes - 1) for the svd solver; ValueError for < 2 classes or n_components > m')
   def _lda_fit(cx, o, X, y):
     s = st_of(cx, X)
     h = cx.p.heap[o.oid]
-    ncl = fresh('nclasses', z3.IntSort())
-    cx.p.assume(ncl >= 2)
-    cx.may_raise('ValueError', None, 'LDA: number of classes / n_components out of range')
+    ys = st_of(cx, y)
+    ncl = TH.ndistinct(ys.term) if ys.term is not None else fresh('nclasses', z3.IntSort())
+    cx.may_raise('ValueError', ncl < 2, 'LDA: the number of classes has to be greater than one')
+    cx.may_raise('ValueError', None, 'LDA input validation')
     m = fresh('ldam', z3.IntSort())
     d = s.shape.dims[1]
     cx.p.assume(m == z3.If(d < ncl - 1, d, ncl - 1))
+    k = h.get('n_components')
+    if isinstance(k, VInt):
+      cx.may_raise('ValueError', k.t > m, 'LDA: n_components cannot be larger than min(n_features, n_classes - 1)')
     h['fitted'] = (d, m)
     return o
 
